@@ -66,7 +66,7 @@ func TestMain(m *testing.M) {
 	}
 	harness.Run(&harness.Prop{
 		ID:             "C19",
-		Rule:           "the shipped handleMessages/handleClientMessages/handleServerMessages/keepCircularQueueUpdated of the proxy (in-package harness, package globals set as start() sets them) over two harness-owned net.Conn values whose Read is a scheduling and chunking choice point and whose Write records; a status thread calls ReportFeed.Status() twice at scheduler-chosen moments. Client streams: frame whose payload reads '<b>', HTML-looking junk before a frame, CRC-valid MSM frames with short or inconsistent content before a frame, two frames, plain junk; server streams: text and binary. plus scenarios in which one peer stops reading (its Write blocks) while the other direction has traffic, and bursts of 2047, 2048, 2049 and 4096 bytes (the relay's read buffer is 2048 bytes) in both directions under the default schedule. All chunkings and interleavings in the unbounded pass where it completes, otherwise deviation bound 2. Oracle: at quiescence upstream sink == client bytes and client sink == server bytes; no panic; every report's message list is (after un-escaping) the display of a prefix of the sequential framing of the client stream; the number of '<' and '>' in every report equals that of the fixed template. Non-trivial = distinct schedule trace",
+		Rule:           "the shipped handleMessages/handleClientMessages/handleServerMessages/keepCircularQueueUpdated of the proxy (in-package harness, package globals set as start() sets them) over two harness-owned net.Conn values whose Read is a scheduling and chunking choice point and whose Write records; a status thread calls ReportFeed.Status() twice at scheduler-chosen moments. Client streams: frame whose payload reads '<b>', HTML-looking junk before a frame, CRC-valid MSM frames with short or inconsistent content before a frame, two frames, plain junk; server streams: text and binary. plus scenarios in which one peer stops reading (its Write blocks) while the other direction has traffic, and bursts of 2047, 2048, 2049 and 4096 bytes (the relay's read buffer is 2048 bytes) in both directions under the default schedule, and two sessions over the same handler, queue and report feed, one after the other and at the same time (first session ending at a frame boundary, inside a frame, or in junk). All chunkings and interleavings in the unbounded pass where it completes, otherwise deviation bound 2. Oracle: at quiescence upstream sink == client bytes and client sink == server bytes; no panic; every report's message list is (after un-escaping) the display of a prefix of the sequential framing of the client stream; the number of '<' and '>' in every report equals that of the fixed template. Non-trivial = distinct schedule trace",
 		Assumptions:    []string{"TCP is replaced by in-memory net.Conn values: Read returns what was sent in explorer-chosen chunks, a server Read with nothing left blocks until the connection is closed, the client reports EOF only after the server's bytes have reached it; the kernel's segmentation and timing are outside the check", "the status HTTP server (go-tools dependency) is not started; ReportFeed.Status is called directly", "the daily RTCM log is a real dailylogger.Writer over a scratch directory; logging is disabled in most scenarios and enabled, or switched by the status thread through ReportFeed.SetLogLevel while traffic flows, in twelve of them (file handling itself belongs to the dependency)", "'HTML-escaped' is judged on '<' and '>' only, which is what Sanitise defines"},
 		Scenarios:      scenarios,
 		QuickBudget:    60 * time.Second,
@@ -446,6 +446,127 @@ func scenarios(tier string) []*mcrt.Scenario {
 				return nil
 			},
 		})
+	}
+	// the proxy serves one call after another (and several at once) with the same
+	// handler, queue and report feed: a later session must be relayed exactly like
+	// the first, however the earlier one ended
+	htmlF := ref.TypedFrame(1005, 6, func(i int) byte { return []byte{0, 0, '<', 'b', '>', '!'}[i] })
+	type sess struct{ c, s []byte }
+	pairs := map[string][2]sess{
+		"frame|frame":               {{f, []byte("ICY 200 OK\r\n")}, {htmlF, []byte{0x00, 0xD3, '<'}}},
+		"frame+partial-frame|frame": {{append(append([]byte{}, f...), htmlF[:4]...), []byte("A")}, {f, []byte("B")}},
+		"junk|frame+D3":             {{[]byte("GET /<x>\r\n"), nil}, {append(append([]byte{}, htmlF...), 0xD3), []byte("C")}},
+	}
+	for _, pn := range []string{"frame|frame", "frame+partial-frame|frame", "junk|frame+D3"} {
+		for _, concurrent := range []bool{false, true} {
+			pr, concurrent := pairs[pn], concurrent
+			both := append(append([]byte{}, pr[0].c...), pr[1].c...)
+			displays, fault := expectedDisplays(both)
+			scs = append(scs, &mcrt.Scenario{
+				Name: fmt.Sprintf("two-sessions %s concurrent=%v", pn, concurrent), Bound: 1, Horizon: 100000, Prune: true,
+				Body: func(x *mcrt.X) {
+					obs := &obsT{toServer: &hsink.Sink{Name: "upstream"}, toClient: &hsink.Sink{Name: "client"}}
+					obs2 := &obsT{toServer: &hsink.Sink{Name: "upstream2"}, toClient: &hsink.Sink{Name: "client2"}}
+					x.Data = [2]*obsT{obs, obs2}
+					byteChan = make(chan byte)
+					messageChan = make(chan rtcm.Message)
+					rtcmHandler = rtcm.New(t0, slog.LevelInfo)
+					mcrt.Go("HandleMessages", func() { rtcmHandler.HandleMessages(byteChan, messageChan) })
+					recentMessages = circularQueue.NewCircularQueue(maxNumberOfMessagesStored)
+					mcrt.Go("keepCircularQueueUpdated", func() { keepCircularQueueUpdated(messageChan, recentMessages) })
+					rtcmLog = realLog
+					realLog.DisableLogging()
+					SetReportFeed(reportfeed.New(rtcmLog, recentMessages))
+					session := func(o *obsT, d sess, id int) {
+						serverDone := make(chan struct{})
+						doneClosed := len(d.s) == 0
+						if doneClosed {
+							mcrt.Close(serverDone)
+						}
+						cl := &conn{name: fmt.Sprintf("client%d", id), rd: &hsink.ChunkReader{Data: d.c, Sizes: []int{0, 3}, Reset: true}, out: o.toClient, closedCh: make(chan struct{}), eofAfter: serverDone}
+						sv := &conn{name: fmt.Sprintf("server%d", id), rd: &hsink.ChunkReader{Data: d.s, Sizes: []int{0, 2}, Reset: true}, out: o.toServer, closedCh: make(chan struct{}), blockAtEnd: true}
+						cl.onWrite = func() {
+							if !doneClosed && o.toClient.Len() >= len(d.s) {
+								doneClosed = true
+								mcrt.Close(serverDone)
+							}
+						}
+						handleMessages(sv, cl, false, id)
+						o.returned = true
+						r := string(reportFeed.Status())
+						o.reports = append(o.reports, r)
+						mcrt.Note(uint64(len(r)))
+					}
+					if concurrent {
+						fin := make(chan bool)
+						mcrt.Go("session2", func() { session(obs2, pr[1], 2); mcrt.Send(fin, true) })
+						session(obs, pr[0], 1)
+						mcrt.Recv(fin)
+					} else {
+						session(obs, pr[0], 1)
+						session(obs2, pr[1], 2)
+					}
+				},
+				Check: func(x *mcrt.X) *mcrt.Failure {
+					o := x.Data.([2]*obsT)
+					if fault != "" {
+						return &mcrt.Failure{Kind: "sequential-framing-failed", Detail: fault}
+					}
+					if len(x.Panics) > 0 {
+						p := x.Panics[0]
+						return &mcrt.Failure{Kind: "panic in " + p.Thread + ": " + first(p.Value) + " @" + p.Site, Detail: p.Stack}
+					}
+					if x.End == mcrt.EndHorizon {
+						return &mcrt.Failure{Kind: "relay-spins-for-ever"}
+					}
+					for i := 0; i < 2; i++ {
+						if !bytes.Equal(o[i].toServer.Buf, pr[i].c) {
+							return &mcrt.Failure{Kind: fmt.Sprintf("session-%d upstream-did-not-receive-exactly-the-client-bytes", i+1), Detail: fmt.Sprintf("got %x want %x end=%s blocked=%v", o[i].toServer.Buf, pr[i].c, x.End, x.Blocked)}
+						}
+						if !bytes.Equal(o[i].toClient.Buf, pr[i].s) {
+							return &mcrt.Failure{Kind: fmt.Sprintf("session-%d client-did-not-receive-exactly-the-server-bytes", i+1), Detail: fmt.Sprintf("got %x want %x end=%s blocked=%v", o[i].toClient.Buf, pr[i].s, x.End, x.Blocked)}
+						}
+						if !o[i].returned {
+							return &mcrt.Failure{Kind: fmt.Sprintf("session-%d handleMessages-did-not-return end=%s", i+1, x.End), Detail: fmt.Sprint(x.Blocked)}
+						}
+						for _, r := range o[i].reports {
+							if n := strings.Count(r, "<") + strings.Count(r, ">"); n != templateAngles {
+								return &mcrt.Failure{Kind: "report-unescaped region=two-sessions", Detail: fmt.Sprintf("%d angle brackets, template has %d", n, templateAngles)}
+							}
+							if concurrent {
+								continue // the two clients' bytes interleave in the parser: the listing is not defined
+							}
+							a := strings.Index(r, "id='messages'>\n")
+							b := strings.LastIndex(r, "\n</div>")
+							if a < 0 || b < a {
+								return &mcrt.Failure{Kind: "report-malformed"}
+							}
+							got := unescape(r[a+len("id='messages'>\n") : b])
+							want, ok := "\nMessages\n\n", false
+							if got == want {
+								ok = true
+							}
+							for _, d := range displays {
+								want += d
+								if got == want {
+									ok = true
+								}
+							}
+							if !ok {
+								return &mcrt.Failure{Kind: "report-lists-something-other-than-relayed-messages", Detail: fmt.Sprintf("two sessions: %q", got)}
+							}
+						}
+					}
+					for _, b := range x.Blocked {
+						if b.Thread != "HandleMessages" && b.Thread != "keepCircularQueueUpdated" {
+							return &mcrt.Failure{Kind: "session-goroutine-left-blocked", Detail: fmt.Sprint(x.Blocked)}
+						}
+					}
+					harness.Outcome(fmt.Sprintf("two sessions relayed concurrent=%v", concurrent))
+					return nil
+				},
+			})
+		}
 	}
 	// bursts that exactly fill, just miss and overflow the relay's 2048-byte
 	// read buffer (default schedule and default chunking: everything that fits)
